@@ -87,7 +87,7 @@ class _EmptyObs:
     observers = ('empty',)
 
 
-def reseat_leaves_value(db, fn, call):
+def reseat_leaves_value(db, fn, call, local_state=None):
     """abstract execution (nopsa/absx.py) of the re-seating assignment `*entry = <source>` of an entry reader, starting from an
     empty entry: returns the entry's empty() afterwards.  The source expression and the resolved operator= overload are the
     ones of this instantiation, so an entry whose value type is itself an Optional is decided on its own overload set."""
@@ -108,6 +108,23 @@ def reseat_leaves_value(db, fn, call):
         raise absx.Unsupported('a default-constructed entry does not report empty')
     fr = absx.Frame(fn, None)
     fr.env[fn['params'][0]['id']] = absx.Ptr(('A',))
+    # a local of the reader used as the source (decode into a local, then commit): a record local of an Optional-like
+    # class is given the requested state, any other local is an opaque element value
+    locals_ = {}
+    for y in ir.walk(fn['body']):
+        if y.get('k') == 'decl':
+            for v in y['vars']:
+                if 'id' in v:
+                    locals_[v['id']] = v
+    used = {y['id'] for y in ir.walk(call) if y.get('k') == 'ref' and y.get('dk') == 'local' and y.get('id') in locals_}
+    for vid in used:
+        t = tsrules.strip_cvref(locals_[vid].get('t', ''))
+        r = db.records.get(t)
+        if r is not None and r.get('rect') == 'nop::Optional':
+            ex.make_other(w, t, local_state or 'empty')
+            fr.env[vid] = absx.Loc(('B',))
+        else:
+            fr.env[vid] = absx.Elem(w.fresh('local'))
     it.ev(call, fr)
     return ex.observe(w, 'A')[0], list(w.problems)
 
@@ -437,11 +454,20 @@ def rules(chk, db, want, prefix=''):
                     norm = ['ctor' if e.name.startswith('ctor:nop::BoundedReader') else ('assign' if e.name == 'operator=' else
                             ('tmp' if e.name.startswith('ctor:') else e.name)) for e in ev]
                     norm = [n for n in norm if n != 'tmp']
-                    if norm != ['Read', 'assign', 'ctor', 'Read', 'ReadPadding']:
-                        why.append('sequence is %s, expected size, re-seat, frame, value, padding' % norm)
-                        continue
                     ev = [e for e in ev if not (e.name.startswith('ctor:') and not e.name.startswith('ctor:nop::BoundedReader'))]
-                    r_sz, asg, frame, r_val, pad = ev
+                    if norm == ['Read', 'assign', 'ctor', 'Read', 'ReadPadding']:
+                        r_sz, asg, frame, r_val, pad = ev           # re-seat, then decode into the entry's value
+                        states = (None,)
+                    elif norm == ['Read', 'ctor', 'Read', 'assign', 'ReadPadding']:
+                        r_sz, frame, r_val, asg, pad = ev           # decode into a local, then commit it to the entry
+                        states = ('empty', 'value')
+                        dst = repr(r_val.args[0])
+                        committed = repr(asg.args[1:])
+                        if not dst.startswith('&l:') or not (dst[1:] in committed or 'd:%s#%d' % (dst[3:], p.events.index(r_val)) in committed):
+                            why.append('the value is decoded into %s but %s is committed to the entry' % (dst, [repr(a) for a in asg.args[1:]]))
+                    else:
+                        why.append('sequence is %s, expected size, re-seat, frame, value, padding (or size, frame, value into a local, commit, padding)' % norm)
+                        continue
                     szsym = encrules.len_atom(('ENC', None, None, None, None, r_sz))
                     if encrules.enc_type(r_sz) != 'unsigned long' or szsym is None:
                         why.append('entry size not decoded as SizeType')
@@ -451,12 +477,14 @@ def rules(chk, db, want, prefix=''):
                         why.append('value is not read through the bounded reader')
                     try:
                         from . import absx
-                        still_empty, probs = reseat_leaves_value(db, f, asg.expr)
-                        if still_empty != 0:
-                            why.append('the re-seating assignment leaves the entry EMPTY for this value type (resolved overload %s): the value is then '
-                                       'decoded into dead storage and the entry reads back empty' % ir.fn_label(db.callee(f, asg.expr))[:80])
-                        elif probs:
-                            why.append('re-seating: %s' % '; '.join('%s [%s]' % pr for pr in probs[:2]))
+                        for st in states:
+                            still_empty, probs = reseat_leaves_value(db, f, asg.expr, st)
+                            if still_empty != 0:
+                                why.append('the assignment to the entry leaves it EMPTY for this value type%s (resolved overload %s): the entry reads back '
+                                           'empty although it was present in the encoding' % (' when the decoded value is an empty wrapper' if st == 'empty' else '',
+                                                                                          ir.fn_label(db.callee(f, asg.expr))[:80]))
+                            elif probs:
+                                why.append('re-seating: %s' % '; '.join('%s [%s]' % pr for pr in probs[:2]))
                     except absx.Unsupported as e:
                         chk.unanalysable(R('TR'), where, 're-seating assignment cannot be executed abstractly: %s' % e)
                     if not (isinstance(p.ret, StatusVal) and p.ret.kind == 'call' and p.events[p.ret.arg] is pad):
